@@ -19,7 +19,7 @@ ap.add_argument("--out", default="/verif/seeded/CROSSMATRIX.json")
 a = ap.parse_args()
 PY = "/venv/bin/python"
 CHECKS = a.checks.split(",") if a.checks else ["C%02d" % i for i in range(1, 21)]
-seeds = sorted(d for d in os.listdir("/verif/seeded") if os.path.isfile("/verif/seeded/%s/patch.diff" % d))
+seeds = sorted(d for d in os.listdir("/verif/seeded") if os.path.isfile("/verif/seeded/%s/patch.diff" % d) and "superseded_by_fix" not in open("/verif/seeded/%s/meta.json" % d).read())
 if a.only:
     seeds = [s for s in seeds if s in a.only.split(",")]
 
